@@ -17,27 +17,60 @@ def keyToJ : Key → J
 def pathOfJ (j : J) : Option Path := j.asArr? >>= (·.mapM keyOfJ)
 def pathToJ (p : Path) : J := .arr (p.map keyToJ)
 
+def kindOfJ (kind : String) : Option Kind :=
+  match kind with
+  | "dict" => some Kind.dict | "list" => some Kind.list | "obj" => some Kind.obj | _ => none
+
+/-- A default value of a schema: an atom, or `{"k", "c", "items"}`. -/
+partial def valOfJ : J → Option Val
+  | .null => some (.atom .none)
+  | .int i => some (.atom (.int i))
+  | .str s => some (.atom (.str s))
+  | j => do
+    if (j.getBool? "missing").getD false then pure (.atom .missing) else
+    let kd ← (j.getStr? "k") >>= kindOfJ
+    let items ← j.getArr? "items"
+    let kvs ← items.mapM (fun it => match it with
+      | .arr [k, v] => do pure ((← keyOfJ k), (← valOfJ v))
+      | _ => none)
+    pure (.node kd ((j.getNat? "c").getD 0) kvs)
+
+/-- `"sch": [[key, {"d": default}] | [key, {"req": true}], ...]`. -/
+def schemaOfJ (j : J) : Option Schema :=
+  j.asArr? >>= (·.mapM fun it => match it with
+    | .arr [k, spec] => do
+      let k ← keyOfJ k
+      match spec.get? "d" with
+      | some d => do pure (k, some (← valOfJ d))
+      | none => pure (k, none)
+    | _ => none)
+
 partial def treeOfJ : J → Option T
   | .null => some (.leaf .none)
   | .int i => some (.leaf (.int i))
   | .str s => some (.leaf (.str s))
   | j => do
+    if (j.getBool? "missing").getD false then pure (.leaf .missing) else
     let kind ← j.getStr? "k"
     let items ← j.getArr? "items"
-    let kd ← match kind with
-      | "dict" => some Kind.dict | "list" => some Kind.list | "obj" => some Kind.obj | _ => none
+    let kd ← kindOfJ kind
     let kvs ← items.mapM (fun it => match it with
       | .arr [k, v] => do
         let k ← keyOfJ k
         let t ← treeOfJ v
         pure (k, t)
       | _ => none)
-    pure (.node { id := (j.getNat? "id").getD 0, sub := (j.getBool? "sub").getD false, cache := none } kd kvs)
+    let sch ← match j.get? "sch" with
+      | some sj => (schemaOfJ sj).map some
+      | none => some none
+    pure (.node { id := (j.getNat? "id").getD 0, sub := (j.getBool? "sub").getD false, cache := none,
+                  cls := (j.getNat? "c").getD 0, sch := sch } kd kvs)
 
 def atomToJ : Atom → J
   | .none => .null
   | .int i => .int i
   | .str s => .str s
+  | .missing => .obj [("missing", .bool true)]
 
 /-- Plain contents of a value (what `pg.to_json`-like canonicalisation of the harness produces). -/
 partial def valueToJ : T → J
@@ -50,7 +83,16 @@ def optValueToJ : Option T → J
   | none => .obj [("missing", .bool true)]
   | some t => valueToJ t
 
-def leafMapToJ (m : LeafMap) : J := .arr (m.map fun (p, a) => .arr [pathToJ p, atomToJ a])
+partial def valToJ : Val → J
+  | .atom a => atomToJ a
+  | .node kd _ items =>
+    let tag := match kd with | .dict => "dict" | .list => "list" | .obj => "obj"
+    .arr [.str tag, .arr (items.map fun (k, v) => .arr [keyToJ k, valToJ v])]
+
+def leafMapToJ (m : LeafMap) : J := .arr (m.map fun (p, a) => .arr [pathToJ p, valToJ a])
+
+def readToJ (p : Path) (nd : LeafMap) (ms : List Path) : J :=
+  .arr [pathToJ p, leafMapToJ nd, .arr (ms.map pathToJ)]
 
 def eventToJ (e : Event) : J :=
   .obj [("recv", .int e.recv),
@@ -105,18 +147,22 @@ def opOfJ (j : J) : Option Op := do
 
 def bad (msg : String) : J := .obj [("bad_request", .str msg)]
 
-/-- `chosen` = the harness reads derived facts only where and when a `read` step says so. -/
+/-- `chosen` = the harness reads derived facts only where and when a `read` step says so
+(`"read": [[path, nd?, miss?], ...]`). -/
 def runSteps (chosen : Bool) : T → List J → Option (List J)
   | _, [] => some []
   | t, s :: rest =>
     match s.get? "read" with
     | some rd => do
-      let paths ← rd.asArr? >>= (·.mapM pathOfJ)
-      let (t', reads) := paths.foldl (fun (acc : T × List J) p =>
-        let r := readAt acc.1 p
-        match r.2, getAt acc.1 p with
-        | some m, some n => if objFree n then (r.1, acc.2 ++ [.arr [pathToJ p, leafMapToJ m]]) else (r.1, acc.2)
-        | _, _ => (r.1, acc.2)) (t, [])
+      let items ← rd.asArr?
+      let specs ← items.mapM (fun it => match it with
+        | .arr [p, .bool nd, .bool ms] => do pure ((← pathOfJ p), nd, ms)
+        | _ => none)
+      let (t', reads) := specs.foldl (fun (acc : T × List J) sp =>
+        let r := readAt acc.1 sp.1 ⟨sp.2.1, sp.2.2⟩
+        match r.2 with
+        | some v => (r.1, acc.2 ++ [readToJ sp.1 v.1 v.2])
+        | none => (r.1, acc.2)) (t, [])
       let more ← runSteps chosen t' rest
       pure (.obj [("ok", .bool true), ("events", .arr []), ("reads", .arr reads), ("value", valueToJ t')] :: more)
     | none => do
@@ -129,13 +175,10 @@ def runSteps (chosen : Bool) : T → List J → Option (List J)
         pure (.obj [("ok", .bool out.ok), ("events", .arr (out.events.map eventToJ)),
                     ("reads", .arr []), ("value", valueToJ out.tree)] :: more)
       else
-        let r := readAll [] out.tree
-        let reads := r.2.2.filter (fun (p, _) => match getAt out.tree p with
-          | some n => objFree n
-          | none => false)
+        let r := readEverything out.tree
         let more ← runSteps chosen r.1 rest
         pure (.obj [("ok", .bool out.ok), ("events", .arr (out.events.map eventToJ)),
-                    ("reads", .arr (reads.map fun (p, m) => .arr [pathToJ p, leafMapToJ m])),
+                    ("reads", .arr (r.2.map fun (p, nd, ms) => readToJ p nd ms)),
                     ("value", valueToJ out.tree)] :: more)
 
 def handle (j : J) : J :=
@@ -145,7 +188,7 @@ def handle (j : J) : J :=
     | some t, some steps =>
       -- unless it chooses its reads, the harness reads every derived fact once before the first step
       let chosen := j.getStr? "reads" == some "chosen"
-      let t0 := if chosen then t else (readAll [] t).1
+      let t0 := if chosen then t else (readEverything t).1
       match runSteps chosen t0 steps with
       | some outs => .obj [("steps", .arr outs)]
       | none => bad "run: step"
